@@ -41,22 +41,77 @@ def install(cl, world, env=None):
   """Replaces the seams of module `cl` (concertina_lib) by fakes bound to `world`."""
   env = dict(env or {})
 
+  import os as real_os
+
   class FakePath(object):
+    """os.path over the in-memory stop-signal files; pure path functions are the real ones."""
     @staticmethod
     def isfile(p):
       world.probes_file += 1
       return p in world.fs
 
-  class FakeOs(object):
-    path = FakePath
+    @staticmethod
+    def exists(p):
+      world.probes_file += 1
+      return p in world.fs
+
+    @staticmethod
+    def getsize(p):
+      world.probes_file += 1
+      if p not in world.fs:
+        raise FileNotFoundError(p)
+      return len(world.fs[p].encode('utf8'))
+
+    @staticmethod
+    def getmtime(p):
+      if p not in world.fs:
+        raise FileNotFoundError(p)
+      return world.clock
+
+    def __getattr__(self, name):
+      return getattr(real_os.path, name)
+
+  class FakeStat(object):
+    def __init__(self, size):
+      self.st_size = size
+      self.st_mtime = world.clock
+      self.st_mode = 0o100644
+
+  class FakeOsClass(object):
+    path = FakePath()
+    environ = env
 
     @staticmethod
     def getenv(k, d=None):
       return env.get(k, d)
 
+    @staticmethod
+    def stat(p, *a, **k):
+      world.probes_file += 1
+      if p not in world.fs:
+        raise FileNotFoundError(p)
+      return FakeStat(len(world.fs[p].encode('utf8')))
+
+    @staticmethod
+    def remove(p):
+      if p not in world.fs:
+        raise FileNotFoundError(p)
+      del world.fs[p]
+
+    unlink = remove
+
+    def __getattr__(self, name):
+      return getattr(real_os, name)
+
+  FakeOs = FakeOsClass()
+
   def fake_open(p, mode='r', *a, **k):
+    if 'w' in mode or 'a' in mode or '+' in mode:
+      raise PermissionError('the simulated executor only reads stop-signal files: %s' % p)
     if p not in world.fs:
       raise FileNotFoundError(p)
+    if 'b' in mode:
+      return io.BytesIO(world.fs[p].encode('utf8'))
     return io.StringIO(world.fs[p])
 
   class FakeDT(real_datetime.datetime):
